@@ -80,7 +80,11 @@ def op_strategy(draw):
                  # (class C(B, A) with B(A)): legal, and the specification
                  # of C must keep A when B stops inheriting (seed C01e)
                  'redund': draw(st.integers(0, 3)) == 0,
-                 'rpick': draw(st.integers(0, 5))}, chk]
+                 'rpick': draw(st.integers(0, 5)),
+                 # created by a custom metaclass (which may itself be
+                 # declared to implement something: the class object then
+                 # provides that too) - seed C01g
+                 'meta': draw(st.integers(0, 3)) == 0}, chk]
     if k == 'newinst':
         return ['newinst', draw(IDX), chk]
     if k == 'classImplements':
@@ -123,7 +127,10 @@ def case_strategy(draw):
     for _ in range(draw(st.integers(1, 3))):
         ops.append(['newinst', draw(IDX), draw(st.booleans())])
     ops += draw(st.lists(op_strategy(), min_size=3, max_size=36))
-    return {'ibases': ibases, 'ops': ops}
+    return {'ibases': ibases, 'ops': ops,
+            'meta_iface': draw(st.one_of(st.none(),
+                                         st.integers(0, nif - 1),
+                                         st.integers(0, nif - 1)))}
 
 
 def strategy(cfg):
@@ -185,7 +192,8 @@ class Model:
 
     def cls_provided(self, c, mode):
         cl = self.classes[c]
-        return self.expand(cl['cp_' + mode], mode)
+        # a class object is an instance of its metaclass
+        return self.expand(cl['cp_' + mode], mode) | set(cl.get('meta', ()))
 
 
 def _flatten(t, out):
@@ -395,6 +403,16 @@ def run_case(case, cfg, out):
             stack.extend(M.classes[x]['bases'])
         return seen
 
+    meta_box = []
+
+    def get_meta():
+        if not meta_box:
+            Meta = type('Meta', (type,), {})
+            if case.get('meta_iface') is not None:
+                classImplements(Meta, ifaces[case['meta_iface'] % nif])
+            meta_box.append(Meta)
+        return meta_box[0]
+
     for step, op in enumerate(case['ops']):
         kind = op[0]
         chk = op[-1]
@@ -429,8 +447,27 @@ def run_case(case, cfg, out):
             if len(op) > 5 and op[4].get('slots'):
                 body = {'__slots__': ('__provides__',)}
                 out.tag('slotted_class')
+            def _slotted(b):
+                return any('__provides__' in k.__dict__.get('__slots__', ())
+                           for k in rclasses[b].__mro__)
+            if any(type(rclasses[b]) is not type for b in bidx) and \
+                    any(_slotted(b) for b in bidx):
+                bidx = bidx[:1]         # see below: not a usable shape
+                out.adjusted += 1
+            want_meta = len(op) > 5 and op[4].get('meta')
+            if want_meta and any(
+                    '__provides__' in k.__dict__.get('__slots__', ())
+                    for b in bidx for k in rclasses[b].__mro__):
+                want_meta = False       # see below
+            if body and (want_meta or any(type(rclasses[b]) is not type
+                                          for b in bidx)):
+                # a __provides__ slot would shadow the declaration of the
+                # class object itself (which a declared metaclass looks
+                # up): not a usable shape
+                body = {}
             cls, kept = make_class('K%d' % len(rclasses),
-                                   [rclasses[b] for b in bidx], body)
+                                   [rclasses[b] for b in bidx], body,
+                                   meta=get_meta() if want_meta else None)
             if kept != len(bidx):
                 out.adjusted += 1
             bidx = bidx[:kept]
@@ -438,6 +475,12 @@ def run_case(case, cfg, out):
             M.classes.append({'bases': bidx, 'must': set(), 'may': set(),
                               'inherit': True, 'cp_must': set(),
                               'cp_may': set()})
+            if type(cls) is not type:
+                # own metaclass or inherited from a base
+                out.tag('class_with_metaclass')
+                if case.get('meta_iface') is not None:
+                    M.classes[c]['meta'] = M.ireach(
+                        case['meta_iface'] % nif)
             deco = op[2]
             if deco:
                 bound, reals = resolve_terms(op[3], c)
